@@ -23,9 +23,18 @@ def run(ctx):
     strs = list(gens.delimiter_strings(L))
     strs += gens.structured_urls(ctx.rng, 6000 if ctx.quick else 60000)
     strs += gens.soup_urls(ctx.rng, 3000 if ctx.quick else 40000)
+    strs += gens.leading_runs(["http://u:p@h:8/p?q#f", "//h/p", "a:b", "/p?q", "HTTP://H"], 2 if ctx.quick else 3)
     reqs = []
     for s in strs:
         reqs.append(("observe", [2, [push_url(s)]]))
         reqs.append(("observe", [0, [push_url(s, True)]]))
-    core.check_suite(ctx, "SU-constructor", reqs, split=True,
-                     nontrivial=lambda rs: {repr(a) for _, a in rs})
+    outs = core.check_suite(ctx, "SU-constructor", reqs, split=True,
+                            nontrivial=lambda rs: {repr(a) for _, a in rs})
+    from proto import enc
+    for k in [k for k in outs if k != "model"]:
+        for pred, off in (("c07_auto_pred", 0), ("c07_enc_pred", 1)):
+            args = [enc(s) + " " + outs[k][2 * i + off] for i, s in enumerate(strs)]
+            ok = core.eval_pred(ctx, pred, args)
+            core.record_failures(ctx, "SU-constructor", pred, ok,
+                                 lambda m, k=k, off=off: {"backend": k, "input": strs[m], "input_codepoints": [ord(c) for c in strs[m]],
+                                                          "mode": "encoded=True" if off else "auto", "impl": outs[k][2 * m + off]})
